@@ -199,7 +199,7 @@ Ltac norm_assoc H :=
   end.
 Ltac sub H x cs s1 E :=
   match type of H with
-  | context[lower ?f ?wa ?h x ?s] => destruct (lower f wa h x s) as [[cs s1]|] eqn:E; [|discriminate H]
+  | context[lower ?f ?wa ?bd ?h x ?s] => destruct (lower f wa bd h x s) as [[cs s1]|] eqn:E; [|discriminate H]
   end.
 Ltac plain := repeat split; reflexivity.
 
@@ -228,17 +228,17 @@ Proof.
     destruct args as [|? [|? ?]]; discriminate P.
 Qed.
 
-Theorem lower_pure_sound f : forall wa h e s code s' pf en stk v,
-  lower f wa h e s = Ok (code, s') -> aligned stk h wa en -> List.length stk = h ->
+Theorem lower_pure_sound f : forall wa bd h e s code s' pf en stk v,
+  lower f wa bd h e s = Ok (code, s') -> aligned stk h wa en -> List.length stk = h ->
   peval pf en e = Some v -> runs code stk (v :: stk).
 Proof.
-  induction f as [|f IH]; intros wa h e s code s' pf en stk v H A L P; [discriminate|].
+  induction f as [|f IH]; intros wa bd h e s code s' pf en stk v H A L P; [discriminate|].
   destruct pf as [|pf]; [discriminate|]. cbn [peval] in P.
   destruct e as [l|x|op args].
-  - (* literal *) cbn [lower] in H. destruct (lit_okb l); [|discriminate]. inversion H; subst. inversion P; subst.
+  - (* literal *) cbn [lower many_] in H. destruct (lit_okb l); [|discriminate]. inversion H; subst. inversion P; subst.
     apply runs_push. unfold wrap. apply Z.mod_pos_bound. unfold W. lia.
   - (* variable *) destruct (aligned_lookup _ _ _ _ _ _ A P) as (hx & Ax & Lx & Nx & Ox).
-    cbn [lower] in H. rewrite Ox, Ax in H.
+    cbn [lower many_] in H. rewrite Ox, Ax in H.
     destruct (Nat.ltb 16 (h - hx)) eqn:D; [discriminate|]. apply Nat.ltb_ge in D. inversion H; subst.
     apply runs_dup; [lia|]. replace (List.length stk - hx - 1)%nat with (List.length stk - 1 - hx)%nat by lia. exact Nx.
   - destruct (bop_of_name op) as [o|] eqn:EB.
@@ -248,12 +248,12 @@ Proof.
       destruct (peval pf en a) as [va|] eqn:Pa; [|destruct o; discriminate P].
       destruct (peval pf en b) as [vb|] eqn:Pb; [|destruct o; discriminate P].
       assert (Pv: v = bop_sem o va vb) by (destruct o; inversion P; reflexivity). subst v. clear P.
-      assert (SUB: forall cb s1 ca s2, lower f wa h b s = Ok (cb, s1) -> lower f wa (S h) a s1 = Ok (ca, s2) ->
+      assert (SUB: forall cb s1 ca s2, lower f wa bd h b s = Ok (cb, s1) -> lower f wa bd (S h) a s1 = Ok (ca, s2) ->
                 runs (cb ++ ca) stk (va :: vb :: stk)).
       { intros cb s1 ca s2 Hb Ha. eapply runs_app.
-        - eapply (IH _ _ _ _ _ _ _ _ _ _ Hb A L Pb).
-        - eapply (IH _ _ _ _ _ _ _ _ _ _ Ha (aligned_push _ _ _ _ vb A) ltac:(cbn; lia) Pa). }
-      destruct o; cbn [lower bop_name] in H; norm_assoc H; cbn iota in H; cbn [rev app] in H;
+        - eapply (IH _ _ _ _ _ _ _ _ _ _ _ Hb A L Pb).
+        - eapply (IH _ _ _ _ _ _ _ _ _ _ _ Ha (aligned_push _ _ _ _ vb A) ltac:(cbn; lia) Pa). }
+      destruct o; cbn [lower many_ bop_name] in H; norm_assoc H; cbn iota in H; cbn [rev app] in H; cbn [many_] in H;
         try (* EVM opcode: arguments in reverse order, then the opcode *)
           (sub H b cb s1 Eb; cbn [bind] in H; sub H a ca s2 Ea; cbn [bind] in H; inversion H; subst; clear H;
            rewrite app_nil_r; eapply runs_app; [eapply SUB; eauto|];
@@ -283,28 +283,28 @@ Proof.
       destruct (String.eqb op "iszero") eqn:E1.
       { apply String.eqb_eq in E1. subst op. destruct args as [|a [|b r]]; try discriminate P'.
         destruct (peval pf en a) as [va|] eqn:Pa; [|discriminate P']. inversion P'; subst v.
-        cbn [lower] in H. norm_assoc H. cbn iota in H. cbn [rev app] in H.
+        cbn [lower many_] in H. norm_assoc H. cbn iota in H. cbn [rev app] in H; cbn [many_] in H.
         sub H a ca s1 Ea. cbn [bind] in H. inversion H; subst. rewrite app_nil_r.
-        eapply runs_app; [eapply (IH _ _ _ _ _ _ _ _ _ _ Ea A eq_refl Pa)|].
+        eapply runs_app; [eapply (IH _ _ _ _ _ _ _ _ _ _ _ Ea A eq_refl Pa)|].
         apply runs_un; [plain | reflexivity | reflexivity]. }
       destruct (String.eqb op "not") eqn:E2.
       { apply String.eqb_eq in E2. subst op. destruct args as [|a [|b r]]; try discriminate P'.
         destruct (peval pf en a) as [va|] eqn:Pa; [|discriminate P']. inversion P'; subst v.
-        cbn [lower] in H. norm_assoc H. cbn iota in H. cbn [rev app] in H.
+        cbn [lower many_] in H. norm_assoc H. cbn iota in H. cbn [rev app] in H; cbn [many_] in H.
         sub H a ca s1 Ea. cbn [bind] in H. inversion H; subst. rewrite app_nil_r.
-        eapply runs_app; [eapply (IH _ _ _ _ _ _ _ _ _ _ Ea A eq_refl Pa)|].
+        eapply runs_app; [eapply (IH _ _ _ _ _ _ _ _ _ _ _ Ea A eq_refl Pa)|].
         apply runs_un; [plain | reflexivity | reflexivity]. }
       destruct (String.eqb op "ceil32") eqn:E3.
       { apply String.eqb_eq in E3. subst op. destruct args as [|a [|b r]]; try discriminate P'.
         destruct (peval pf en a) as [va|] eqn:Pa; [|discriminate P']. inversion P'; subst v.
-        cbn [lower] in H. norm_assoc H. cbn iota in H. cbn [String.eqb Ascii.eqb Bool.eqb orb] in H.
+        cbn [lower many_] in H. norm_assoc H. cbn iota in H. cbn [String.eqb Ascii.eqb Bool.eqb orb] in H.
         sub H a ca s1 Ea. cbn [bind] in H. inversion H; subst. clear H.
         (* PUSH 31; NOT; PUSH 31; <a>; ADD; AND *)
         eapply runs_app; [apply (runs_push 31 stk); unfold W; lia|].
         eapply (runs_app [Op "NOT"]); [apply runs_un; [plain | reflexivity | reflexivity]|].
         eapply runs_app; [apply (runs_push 31); unfold W; lia|].
         eapply runs_app.
-        { eapply (IH _ _ _ _ _ _ _ _ _ _ Ea); [|cbn; reflexivity|exact Pa].
+        { eapply (IH _ _ _ _ _ _ _ _ _ _ _ Ea); [|cbn; reflexivity|exact Pa].
           apply aligned_push. apply aligned_push. exact A. }
         eapply (runs_app [Op "ADD"]); [apply runs_bin; [plain | reflexivity]|].
         unfold ceil32_sem. apply runs_bin; [plain | reflexivity]. }
@@ -313,15 +313,15 @@ Proof.
         destruct (peval pf en c) as [vc|] eqn:Pc; [|discriminate P'].
         destruct (peval pf en a) as [va|] eqn:Pa; [|discriminate P'].
         destruct (peval pf en b) as [vb|] eqn:Pb; [|discriminate P']. inversion P'; subst v.
-        cbn [lower] in H. norm_assoc H. cbn iota in H. cbn [String.eqb Ascii.eqb Bool.eqb orb] in H.
+        cbn [lower many_] in H. norm_assoc H. cbn iota in H. cbn [String.eqb Ascii.eqb Bool.eqb orb] in H.
         sub H b cb s1 Eb. cbn [bind] in H. sub H a ca s2 Ea. cbn [bind] in H. sub H c cc s3 Ec. cbn [bind] in H.
         inversion H; subst. clear H.
-        eapply runs_app; [eapply (IH _ _ _ _ _ _ _ _ _ _ Eb A eq_refl Pb)|].
-        eapply runs_app; [eapply (IH _ _ _ _ _ _ _ _ _ _ Ea (aligned_push _ _ _ _ vb A) ltac:(cbn; reflexivity) Pa)|].
+        eapply runs_app; [eapply (IH _ _ _ _ _ _ _ _ _ _ _ Eb A eq_refl Pb)|].
+        eapply runs_app; [eapply (IH _ _ _ _ _ _ _ _ _ _ _ Ea (aligned_push _ _ _ _ vb A) ltac:(cbn; reflexivity) Pa)|].
         eapply (runs_app [Op ("DUP" ++ nat_str 2)]); [apply (runs_dup 2 (va :: vb :: stk) vb); [lia | reflexivity]|].
         eapply (runs_app [Op "XOR"]); [apply runs_bin; [plain | reflexivity]|].
         eapply runs_app.
-        { eapply (IH _ _ _ _ _ _ _ _ _ _ Ec); [|cbn; reflexivity|exact Pc].
+        { eapply (IH _ _ _ _ _ _ _ _ _ _ _ Ec); [|cbn; reflexivity|exact Pc].
           apply aligned_push. apply aligned_push. exact A. }
         eapply (runs_app [Op "MUL"]); [apply runs_bin; [plain | reflexivity]|].
         (* stack: (vc * (vb xor va)) :: vb :: stk ; XOR *)
@@ -333,11 +333,11 @@ Proof.
       destruct args as [|[l|x|o2 a2] [|v0 [|b [|d r]]]]; try discriminate P'.
       destruct (assoc (upper x) evm_opcodes) eqn:Ox; [discriminate P'|].
       destruct (peval pf en v0) as [vv|] eqn:Pv; [|discriminate P'].
-      cbn [lower] in H. norm_assoc H. cbn iota in H. cbn [String.eqb Ascii.eqb Bool.eqb orb] in H.
+      cbn [lower many_] in H. norm_assoc H. cbn iota in H. cbn [String.eqb Ascii.eqb Bool.eqb orb] in H.
       sub H v0 cv s1 Ev. cbn [bind] in H. sub H b cb s2 Eb. cbn [bind] in H. inversion H; subst. clear H.
-      eapply runs_app; [eapply (IH _ _ _ _ _ _ _ _ _ _ Ev A eq_refl Pv)|].
+      eapply runs_app; [eapply (IH _ _ _ _ _ _ _ _ _ _ _ Ev A eq_refl Pv)|].
       eapply runs_app.
-      { eapply (IH _ _ _ _ _ _ _ _ _ _ Eb); [|cbn; reflexivity|exact P'].
+      { eapply (IH _ _ _ _ _ _ _ _ _ _ _ Eb); [|cbn; reflexivity|exact P'].
         constructor; [lia | | exact Ox | apply aligned_push; exact A].
         replace (S (List.length stk) - 1 - List.length stk)%nat with 0%nat by lia. reflexivity. }
       (* the body is valued here (it evaluates to v): SWAP1 POP *)
